@@ -110,6 +110,9 @@ type fmtCfg struct {
 func parseFmtCfg(name string) fmtCfg {
 	var c fmtCfg
 	c.rename, c.render, c.custom = map[string]string{}, map[string]string{}, map[string]bool{}
+	if strings.HasPrefix(name, "yamlj:") {
+		name = "yaml:" + name[6:]
+	}
 	if !strings.HasPrefix(name, "yaml:") {
 		return c
 	}
@@ -259,7 +262,7 @@ func init() {
 			}
 			t.N(uint64(len(mf.out)))
 			for _, o := range mf.out {
-				judge(&t, o, fc, a[1] == "none")
+				judge(&t, o, fc, a[1] == "none" || strings.HasPrefix(a[1], "yamlj:"))
 				if o.berr == nil {
 					stream.Write(o.bin)
 					total++
